@@ -158,7 +158,7 @@ def audit_axioms(module, theorems):
     out = r.stdout + r.stderr
     res = {}
     cur = None
-    for m in re.finditer(r"'([^']+)' (depends on axioms: \[([^\]]*)\]|does not depend on any axioms)", out, flags=re.S):
+    for m in re.finditer(r"'([^\n]+?)' (depends on axioms: \[([^\]]*)\]|does not depend on any axioms)", out, flags=re.S):
         name = m.group(1)
         axs = [a.strip() for a in (m.group(3) or "").replace("\n", " ").split(",") if a.strip()]
         res[name] = axs
